@@ -1,6 +1,7 @@
 package h
 
 import (
+	sdk "github.com/cosmos/cosmos-sdk/types"
 	"strings"
 
 	"github.com/cosmos/cosmos-sdk/types/module"
@@ -69,8 +70,20 @@ func H_C10_unauthorized() {
 	verif.Cover("authority-succeeds-with-valid-content")
 
 	// anyone else: any string that is not the authority's address (in either letter case)
-	signer := verif.String("signer", verif.Bound("signerlen"))
-	verif.Assume(signer != auth && signer != strings.ToUpper(auth))
+	var signer string
+	switch verif.Choose("signer-kind", 4) {
+	case 0:
+		signer = verif.String("signer", verif.Bound("signerlen"))
+		verif.Assume(signer != auth && signer != strings.ToUpper(auth))
+	case 1:
+		// well-formed addresses of other lengths than the authority's 20 bytes (interchain accounts, group policies,
+		// module-derived accounts have 32)
+		signer = sdk.AccAddress(make([]byte, 32)).String()
+	case 2:
+		signer = sdk.AccAddress([]byte{7}).String()
+	default:
+		signer = user1.String()
+	}
 	d0 := verif.StateDigest(w.Ctx)
 	ev0 := len(w.Ev.list)
 
